@@ -710,7 +710,14 @@ BOUNDED = ["catalogue of terminal instances (not symbolic in the range bounds)",
 
 
 def specs(tier):
-    return [RangeInstances(), AsciiBuiltins(), OptimizedClasses(), CIStrings(), UnicodeProps(), ParseHexDigits(), DecodeEscape(), DecodeHexChar(), UnescapeString()]
+    from . import ops, templates
+
+    # the catalogue obligations speak about the pattern each terminal hands to the regex engine; that the terminal's real
+    # parse() / emitted code does nothing but match that pattern at state.pos and advance to the end of the match is the
+    # terminal's own contract (C03 / C01), re-proved here so that a terminal that stops consulting its pattern for some
+    # code points (round-5 seed C12c: an ASCII fast path in Range.parse) fails a C12 obligation, not only a C03 one
+    terminals = [ops.StringSpec(), ops.CIStringSpec(), ops.RangeSpec(), ops.AnySpec(), *templates.terminal_templates()]
+    return [RangeInstances(), AsciiBuiltins(), OptimizedClasses(), CIStrings(), UnicodeProps(), ParseHexDigits(), DecodeEscape(), DecodeHexChar(), UnescapeString(), *terminals]
 
 
 def escapes_check() -> dict:
@@ -800,8 +807,55 @@ def codepoint_sweep(tier: str) -> dict:
             "bound": f"{len(names)} built-ins x code points 0..{hex(limit)} (+ fold specials) x 4 modes", "violation": bool(bad), "details": bad[:5]}
 
 
+def range_sweep(tier: str) -> dict:
+    """the real parse() of every catalogued range, in the four modes, on the code points around its bounds, around the
+    ASCII / Latin-1 / BMP / surrogate boundaries and on all of U+0000..U+017F (thorough: every code point)"""
+    from pest import Parser
+
+    bad = []
+    n = 0
+
+    def lit(c):
+        return f"'\\u{{{ord(c):02X}}}'"
+
+    g = "\n".join(f"r{i} = {{ {lit(a)}..{lit(b)} }}" for i, (a, b) in enumerate(RANGES))
+    g += "\nc0 = { 'a'..'c' | 'x'..'\\u{7F}' }\nc1 = { '\\u{7F}'..'\\u{7F}' | \"\\u{80}\" }\nc2 = { ('\\u{00}'..'\\u{7F}')+ }"
+    extra = {"c0": [("a", "c"), ("x", "\x7f")], "c1": [("\x7f", "\x80")], "c2": [("\x00", "\x7f")]}
+    common = set(range(0x180)) | {0x7FF, 0x800, 0xD7FF, 0xE000, 0xFFFD, 0xFFFF, 0x10000, 0x1FFFF, 0x20000, 0x10FFFF, 0x212A, 0x17F, 0x130, 0x131, 0xFF21, 0xFF41}
+    for opt in (True, False):
+        p = Parser.from_grammar(g) if opt else Parser.from_grammar(g, optimizer=None)
+        ns: dict = {}
+        exec(compile(p.generate(), "<g>", "exec"), ns)  # noqa: S102
+        rules = [(f"r{i}", [(a, b)]) for i, (a, b) in enumerate(RANGES)] + list(extra.items())
+        for name, rs in rules:
+            cps = set(common)
+            for a, b in rs:
+                cps |= {ord(a) - 1, ord(a), ord(a) + 1, ord(b) - 1, ord(b), ord(b) + 1}
+            if tier == "thorough":
+                cps |= set(range(0, 0x110000, 1 if name in ("r9", "c0") else 17))
+            for cp in sorted(cps):
+                if not 0 <= cp <= 0x10FFFF or 0xD800 <= cp <= 0xDFFF:
+                    continue
+                ch = chr(cp)
+                exp = any(a <= ch <= b for a, b in rs)
+                for mode, f in (("interp", p.parse), ("gen", ns["parse"])):
+                    n += 1
+                    try:
+                        f(name, ch)
+                        got = True
+                    except Exception:  # noqa: BLE001
+                        got = False
+                    if got != exp:
+                        bad.append({"rule": str(p.rules[name]) if not opt else name, "ranges": [[hex(ord(a)), hex(ord(b))] for a, b in rs], "cp": hex(cp), "mode": mode + ("+opt" if opt else ""), "accepted": got})
+                        break
+            if len(bad) > 4:
+                break
+    return {"name": "c12-range-sweep", "kind": "bounded stand-in (real parse() of the catalogued ranges, four modes)", "evaluations": n,
+            "bound": f"{len(RANGES)} catalogued ranges + 3 choices of ranges x (U+0000..U+017F, the bounds +-1, plane / surrogate boundaries, fold specials) x 4 modes", "violation": bool(bad), "details": bad[:5]}
+
+
 def extra_checks(tier, seed):
-    return [escapes_check(), codepoint_sweep(tier)]
+    return [escapes_check(), codepoint_sweep(tier), range_sweep(tier)]
 
 
 def concretise(tier, seed, refuted, undecided, known):
@@ -811,6 +865,11 @@ def concretise(tier, seed, refuted, undecided, known):
         if cp is not None:
             out.append({"found": True, "for": v.name, "input": {"code_point": cp, "obligation": v.clause}, "observed": "accepts(cp) differs from the definition",
                         "cmd": f"/venv/bin/python -c \"print(hex({cp}), repr(chr({cp})))\""})
+    if undecided or refuted:
+        rs = range_sweep(tier)
+        for d in rs["details"][:1]:
+            out.append({"found": True, "for": None, "input": d, "observed": f"accepted={d['accepted']}",
+                        "cmd": "cd /verif && .venv/bin/python -c \"from contracts import c12; print(c12.range_sweep('quick'))\""})
     r = escapes_check()
     for d in r["details"][:1]:
         out.append({"found": True, "for": UNESC, "input": d, "observed": d.get("got"), "cmd": "cd /verif && .venv/bin/python -c \"from contracts import c12; print(c12.escapes_check())\""})
